@@ -158,6 +158,8 @@ def check_property(prop, tier, seed, only=None, keep=False, write_evidence=True)
         known = load_known()
         violations = []
         known_hits = []
+        n_playbacks = 0
+        MAX_PLAYBACKS = int(os.environ.get("VERIF_MAX_PLAYBACKS", "3"))
         for key, ent in sorted(results.items()):
             o = ent["ob"]
             if ent["status"] == "undecided":
@@ -172,6 +174,13 @@ def check_property(prop, tier, seed, only=None, keep=False, write_evidence=True)
                 for c in ent["failed"]:
                     body.append("  - %s  [%s] in %s at %s" % (c["description"], c["category"], c["function"], c["location"]))
                 stubbed = "stubbing" in ent.get("zflags", ())
+                if n_playbacks >= MAX_PLAYBACKS:
+                    body += ["", "counterexample generation skipped: %d obligations of this run already carry a replayed counterexample" % MAX_PLAYBACKS,
+                             "(run `/verif/bin/check %s --only %s` to obtain this one)" % (prop, o["id"])]
+                    path = write_replay(prop, o, "\n".join(body) + "\n")
+                    violations.append((o, path, True, "; ".join(c["description"] for c in ent.get("failed", []))))
+                    continue
+                n_playbacks += 1
                 test, nat, pcmd = verif.kani_playback(scratch, o["harness"], features=ent["features"], zflags=ent.get("zflags", ()),
                                                       timeout_s=o["timeout"] * 2, native=not stubbed)
                 if test and stubbed:
